@@ -6,6 +6,7 @@ import (
 	"golang.org/x/tools/go/ssa"
 
 	"polyverif/core"
+	"polyverif/eng"
 	"polyverif/ir"
 )
 
@@ -16,7 +17,7 @@ import (
 // (big → small) before writing it.  Decided: the slice that is written is the
 // very slice that was sorted, the comparator is a strict descending order on
 // that slice, and FindKeyHeight takes the first element below the height.
-func checkOntKeyHeightOrder(c *core.Ctx) {
+func checkOntKeyHeightOrder(c *core.Ctx, rule string) {
 	pkg := "native/service/header_sync/ont"
 	ser := c.Fn(pkg, "KeyHeights.Serialization")
 	find := c.Fn(pkg, "FindKeyHeight")
@@ -60,7 +61,7 @@ func checkOntKeyHeightOrder(c *core.Ctx) {
 			}
 		}
 	}
-	c.Decide(sorted != nil && okDesc, "C31.key-height-order", ser, "the key-height list is sorted strictly descending before it is stored", c.P.Rel(ser.Pos()), "")
+	c.Decide(sorted != nil && okDesc, rule, ser, "the key-height list is sorted strictly descending before it is stored", c.P.Rel(ser.Pos()), "")
 	// the elements written come from the sorted slice
 	n, okSame := 0, true
 	for _, ci := range ir.Calls(ser, func(ci ssa.CallInstruction) bool { o := ir.CalleeObj(ci); return o != nil && o.Name() == "WriteUint32" }) {
@@ -75,7 +76,7 @@ func checkOntKeyHeightOrder(c *core.Ctx) {
 			okSame = false
 		}
 	}
-	c.Decide(okSame && n == 1, "C31.key-height-order", ser, "the list written is the very slice that was sorted", c.P.Rel(ser.Pos()), sprintf("%d element write(s)", n))
+	c.Decide(okSame && n == 1, rule, ser, "the list written is the very slice that was sorted", c.P.Rel(ser.Pos()), sprintf("%d element write(s)", n))
 	// FindKeyHeight: first element with height > v is returned
 	okFirst := false
 	{
@@ -92,14 +93,58 @@ func checkOntKeyHeightOrder(c *core.Ctx) {
 				// the value answered is a list element, and the return is reached only under height > that element
 				// (any spelling of the comparison; the element may be loaded again for the return)
 				elem := r.Results[0]
-				g := relGuard("height > element", func(v ssa.Value) bool { return hp != nil && ir.Strip(v) == ssa.Value(hp) },
-					func(v ssa.Value) bool { return v == elem || sameValue(v, elem) }, token.GTR)
-				if !quietDominates(find, g, ir.Sink{Instr: r}) {
+				below := func(el ssa.Value) eng.NamedGuard {
+					return relGuard("height > element", func(v ssa.Value) bool { return hp != nil && ir.Strip(v) == ssa.Value(hp) },
+						func(v ssa.Value) bool { return v == el || sameValue(v, el) }, token.GTR)
+				}
+				// flag form: `key, found = v, true; break` … `if !found { return 0, err }; return key, nil` — the
+				// answer and the flag merge in the same block, the flag is true exactly on the edges that carry an
+				// element, each of those edges is taken only under height > element, and the answer is given only
+				// when the flag is true
+				if ph, isPhi := elem.(*ssa.Phi); isPhi {
+					var flag *ssa.Phi
+					for _, in := range ph.Block().Instrs {
+						f, isF := in.(*ssa.Phi)
+						if !isF || f == ph || len(f.Edges) != len(ph.Edges) {
+							continue
+						}
+						match := true
+						for i := range f.Edges {
+							k, isK := ir.ConstBool(f.Edges[i])
+							_, elemConst := ph.Edges[i].(*ssa.Const)
+							if !isK || k == elemConst {
+								match = false
+							}
+						}
+						if match {
+							flag = f
+						}
+					}
+					okFlag := flag != nil
+					if okFlag {
+						isFlag := eng.NamedGuard{Name: "found", G: func(cd ir.Cond) (bool, bool) { return cd.V == ssa.Value(flag), true }}
+						okFlag = quietDominates(find, isFlag, ir.Sink{Instr: r})
+						for i, e := range ph.Edges {
+							if _, isK := e.(*ssa.Const); isK {
+								continue
+							}
+							pred := ph.Block().Preds[i]
+							if !quietDominates(find, below(e), ir.Sink{Instr: ph, Via: &ir.Edge{From: pred, Idx: indexOfSucc(pred, ph.Block())}}) {
+								okFlag = false
+							}
+						}
+					}
+					if !okFlag {
+						okAll = false
+					}
+					continue
+				}
+				if !quietDominates(find, below(elem), ir.Sink{Instr: r}) {
 					okAll = false
 				}
 			}
 		}
 		okFirst = nRet > 0 && okAll
 	}
-	c.Decide(okFirst, "C31.key-height-order", find, "FindKeyHeight answers the first stored key height strictly below the header height", c.P.Rel(find.Pos()), "")
+	c.Decide(okFirst, rule, find, "FindKeyHeight answers the first stored key height strictly below the header height", c.P.Rel(find.Pos()), "")
 }
